@@ -333,6 +333,21 @@ def prop_pivot(sh, case):
                 what = 'unorderable-first-column' if names[i] in ('fi', 'ld') else 'scalar-keys'
                 fails.append((f'accepted-pivot-raises:{type(r[1]).__name__}:{what}', f'{label}: {r[1]!r}'))
             sh.record(label + str(type(refs[0])), r[0] == 'ok', None)
+    # grouped queries whose GROUP BY names a key more than once, in any form and order: the key columns keep their datatypes
+    plain = [A.Target(col('k1'), None), A.Target(col('k2'), None), A.Target(col('x'), None), A.Target(A.Function('count', [A.Asterisk()]), 'n'),
+             A.Target(A.Function('last', [col('d')]), 'ld')]
+    for gb in ([col('k1'), 1, col('k2'), col('x')], [1, 1, 2, 3], [3, 2, 1, 2, 3], [col('x'), col('k2'), col('k1'), col('k2')],
+               [2, col('k2'), 1, 3, 3], [1, 2, 3]):
+        for tl in (plain, plain[::-1], [plain[2], plain[3], plain[0], plain[1]]):
+            refs = [g if not isinstance(g, int) else tl.index(plain[g - 1]) + 1 for g in gb]
+            stmt = A.Select(tl, A.Table('v'), None, A.GroupBy(refs, None), None, None, None, None)
+            r = execute(conn, stmt)
+            label = f'GROUP BY {[g if isinstance(g, int) else g.name for g in refs]} over {[t.name or t.expression.name for t in tl]}'
+            if r[0] == 'ok':
+                check_result(label, r[1], r[2], dcontext, fails)
+            elif r[0] == 'raised':
+                fails.append((f'accepted-query-raises:{type(r[1]).__name__}:group-by', f'{label}: {r[1]!r}'))
+            sh.record(label, r[0] == 'ok', None)
     return fails
 
 
